@@ -3,13 +3,15 @@ import itertools
 import json
 from concurrent.futures import ThreadPoolExecutor
 
-from harness.core import cbool, clist, log, parse_coq_list_of_nat
+from harness.core import NCPU, cbool, clist, log, parse_coq_list_of_nat
 from harness.impl import c15_oracle as oracle
 
 PROPS = 'C15/Props.v'
 DRIVER = 'harness/impl/c15_driver.py'
 
 COMPONENTS = {
+    60: 'history: data setter', 61: 'history: asmatrix', 62: 'history: dot', 63: 'history: nonzero',
+    64: 'history: transpose().nonzero', 65: 'history: reorder().asmatrix',
     1: 'shape', 2: 'nonzero', 3: 'nonzero(lower_tri)', 4: 'transpose().nonzero', 5: 'nonzeros_for_rows',
     6: 'nonzeros_for_columns', 7: 'dot', 8: 'asmatrix', 9: 'reorder().asmatrix', 10: 'reorder().nonzero',
     11: 'MLMatrix(matrix=)', 12: 'get_transpose_idx_for_bidx', 13: 'sequential_bidx',
@@ -114,6 +116,47 @@ def gen_ml_case(rng, L=None, maxnnz=400, stream='valid'):
     c['cut'] = rng.randint(1, max(1, L - 1))
     c['matrix'] = [rng.randint(-4, 4) for _ in range(M * N)] if M * N <= 200 and rng.random() < 0.5 else None
     return c
+
+
+def gen_hist_case(rng):
+    """queries, reassignment of the data tensor (or rebuild from a matrix), queries again, on one object"""
+    while True:
+        base = gen_ml_case(rng, L=rng.choice([1, 2, 3, 4, 4, 4, 5, 5, 6, 6]), maxnnz=120)
+        if prod(len(p) for p in base['bidx']) >= 1:
+            break
+    bs, bidx = base['bs'], base['bidx']
+    L = len(bs)
+    M, N = prod(b[0] for b in bs), prod(b[1] for b in bs)
+    nnz = prod(len(p) for p in bidx)
+
+    def rdata():
+        return [rng.randint(-3, 3) or 1 for _ in range(nnz)]
+
+    def query():
+        k = rng.choice(['asmatrix', 'asmatrix', 'dot', 'dot', 'matmat', 'nonzero', 'transpose_nz', 'reorder'])
+        if k == 'asmatrix':
+            return {'op': 'asmatrix', 'format': rng.choice(['csr', 'csc', 'coo'])}
+        if k in ('dot', 'matmat'):
+            return {'op': k, 'x': [rng.randint(-3, 3) for _ in range(N)]}
+        if k == 'nonzero':
+            return {'op': 'nonzero', 'lt': rng.random() < 0.4}
+        if k == 'transpose_nz':
+            return {'op': 'transpose_nz'}
+        axes = list(range(L))
+        rng.shuffle(axes)
+        return {'op': 'reorder', 'axes': axes}
+    steps = []
+    for rnd in range(rng.randint(2, 4)):
+        steps += [query() for _ in range(rng.randint(1, 3))]
+        r = rng.random()
+        if r < 0.12 and nnz >= 1:
+            steps.append({'op': 'set', 'data': rdata() + [1], 'layout': 'C', 'bad': True})     # wrong size: refused
+        if r < 0.75 or M * N > 150:
+            steps.append({'op': 'set', 'data': rdata(), 'layout': rng.choice(['C', 'F'])})
+        else:
+            steps.append({'op': 'from_matrix', 'matrix': [rng.randint(-4, 4) for _ in range(M * N)], 'sparse': rng.random() < 0.5})
+    steps += [query() for _ in range(rng.randint(2, 4))]
+    return {'kind': 'hist', 'bs': bs, 'bidx': bidx, 'data': rdata(), 'layout': rng.choice(['C', 'F']), 'steps': steps}
 
 
 def gen_reindex_case(rng):
@@ -248,6 +291,27 @@ def coq_case(c, r):
             opt(r['dot'], zl), trips(asm), trips(reo), opt(r['reo_nz'], lambda v: pl(pairs2(v))),
             opt(r.get('dfm'), zl), clist([opt(t, zl) for t in r['tidx']]),
             clist([zl(v) for v in r['seqb']]) if not is_err(r['seqb']) else '[]'))
+    if k == 'hist':
+        N = prod(b[1] for b in c['bs'])
+        hs = []
+        for st, o in zip(c['steps'], r['steps']):
+            op = st['op']
+            if op == 'set':
+                hs.append('HSet %s %s' % (zl(st['data']), cbool(o['accepted'])))
+            elif op == 'from_matrix':
+                hs.append('HFromMat %s' % clist([zl(st['matrix'][i * N:(i + 1) * N]) for i in range(len(st['matrix']) // N)]))
+            elif op == 'asmatrix':
+                hs.append('HAsm %s' % trips(o['out']['triples'] if not is_err(o['out']) else [[0, 0, 0]]))
+            elif op in ('dot', 'matmat'):
+                hs.append('HDot %s %s' % (zl(st['x']), opt(o['out'], zl)))
+            elif op == 'nonzero':
+                hs.append('HNz %s %s' % (cbool(st['lt']), opt(o['out'], lambda v: pl(pairs2(v)))))
+            elif op == 'transpose_nz':
+                hs.append('HNzT %s' % opt(o['out'], lambda v: pl(pairs2(v))))
+            elif op == 'reorder':
+                hs.append('HReo %s %s' % ('[' + ';'.join('%d%%nat' % a for a in st['axes']) + ']',
+                                          trips(o['out']['triples'] if not is_err(o['out']) else [[0, 0, 0]])))
+        return 'CHist %s %s %s %s' % (pl(c['bs']), clist([pl(p) for p in c['bidx']]), zl(c['data']), clist(['(%s)' % h for h in hs]))
     if k == 'reindex':
         pts = []
         for (i, j), p in zip(c['ij'], r['pts']):
@@ -294,12 +358,16 @@ def case_file(pairs):
 
 def property_failures(c, r):
     """list of (signature slug, text)"""
+    if is_err(r) and r.get('error') == 'Skipped':
+        return []
     if is_err(r):
         return [('driver-raises:' + c['kind'], 'the case could not be run: %s' % r)]
     k = c['kind']
     if k == 'ml':
         return oracle.check_ml(c, r)
     bad = []
+    if k == 'hist':
+        return hist_failures(c, r)
     if k == 'reindex':
         rd, cd = [b[0] for b in c['bs']], [b[1] for b in c['bs']]
         seen = {}
@@ -372,6 +440,73 @@ def property_failures(c, r):
     return bad
 
 
+def hist_failures(c, r):
+    """The property along a history on one object: every answer denotes the CURRENT data tensor
+    (dense oracle), and equals the answer of a freshly constructed object."""
+    bad = []
+    bs, bidx = c['bs'], c['bidx']
+    L = len(bs)
+    M, N = prod(b[0] for b in bs), prod(b[1] for b in bs)
+    pos = oracle.kron_positions(bs, bidx)
+    cur = list(c['data'])
+    nset = 0
+    for n, (st, o) in enumerate(zip(c['steps'], r['steps'])):
+        op = st['op']
+        where = 'step %d (%s) after %d reassignment(s) of .data' % (n, op, nset)
+        if op == 'set':
+            if st.get('bad'):
+                if o['accepted'] or o.get('error') != 'AssertionError':
+                    bad.append(('history:data-setter-shape', '%s: a data tensor of the wrong size was not refused' % where))
+            elif not o['accepted']:
+                bad.append(('history:data-setter-raises', '%s: assigning a data tensor of the right shape raised %s' % (where, o.get('error'))))
+            else:
+                cur = list(st['data'])
+                nset += 1
+            continue
+        if op == 'from_matrix':
+            exp = [st['matrix'][i * N + j] for (i, j) in pos]
+            if o['data'] != exp:
+                bad.append(('history:from-matrix', '%s: MLMatrix(matrix=A).data is not A at the pattern positions' % where))
+            else:
+                cur = exp
+                nset += 1
+            continue
+        _, _, A = oracle.dense_from_data(bs, bidx, cur)
+        out = o['out']
+        if op == 'asmatrix':
+            ok = not is_err(out) and out['shape'] == [M, N] and out['triples'] == oracle.triples(A)
+            slug = 'history:asmatrix'
+        elif op in ('dot', 'matmat'):
+            ok = out == oracle.matvec(M, A, st['x'])
+            slug = 'history:%s-L%s' % (op, L if L in (2, 3) else 'asmatrix-path')
+        elif op == 'nonzero':
+            ok = not is_err(out) and pairs2(out) == [p for p in pos if (not st['lt']) or p[1] <= p[0]]
+            slug = 'history:nonzero'
+        elif op == 'transpose_nz':
+            ok = not is_err(out) and pairs2(out) == [(j, i) for (i, j) in pos]
+            slug = 'history:transpose'
+        else:
+            axes = st['axes']
+            rd, cd = [b[0] for b in bs], [b[1] for b in bs]
+            Ar = {}
+            for (i, j), v in A.items():
+                Ii, Jj = oracle.unravel(i, rd), oracle.unravel(j, cd)
+                Ar[(oracle.ravel([Ii[a] for a in axes], [rd[a] for a in axes]),
+                    oracle.ravel([Jj[a] for a in axes], [cd[a] for a in axes]))] = v
+            ok = not is_err(out) and out['triples'] == oracle.triples(Ar)
+            slug = 'history:reorder'
+        if not ok:
+            bad.append((slug + (':after-reassignment' if nset else ''),
+                        '%s: the answer does not denote the current data tensor: got %s' % (where, str(out)[:160])))
+            break
+        if not o['fresh_same']:
+            bad.append((slug + ':differs-from-fresh-object', '%s: a freshly constructed MLMatrix with the same data answers differently' % where))
+            break
+    if not bad and r.get('final_data') != cur:
+        bad.append(('history:final-data', 'M.data after the history is not the last assigned tensor'))
+    return bad
+
+
 def signature(c, slug):
     return 'impl:%s' % slug
 
@@ -387,7 +522,7 @@ def run_impl(ctx, cases, batch=250):
     def one(b):
         return ctx.impl.run(DRIVER, {'cases': b}, timeout=3000)
     ctx.impl.build()
-    with ThreadPoolExecutor(max_workers=12) as ex:
+    with ThreadPoolExecutor(max_workers=min(12, NCPU)) as ex:
         outs = list(ex.map(one, batches))
     results = []
     for o in outs:
@@ -457,7 +592,7 @@ def sweeps(ctx):
 
     def one(j):
         return ctx.impl.run(DRIVER, {'cases': [j]}, timeout=6000)['results'][0]
-    with ThreadPoolExecutor(max_workers=16) as ex:
+    with ThreadPoolExecutor(max_workers=min(16, NCPU)) as ex:
         outs = list(ex.map(one, jobs))
     dist = {}
     nfail = 0
@@ -491,6 +626,7 @@ def run(ctx):
     rng = ctx.rng
     thorough = ctx.tier == 'thorough'
     n_ml, n_mal, n_re, n_kv, n_kp, n_gen = (4000, 400, 600, 2000, 1000, 300) if thorough else (600, 60, 100, 300, 150, 60)
+    n_hist = 1500 if thorough else 250
     cases = []
     # the two inputs of DESIGN.md section 5 first
     cases.append({'kind': 'ml', 'bs': [[2, 2]] * 4, 'bidx': [[[0, 0], [1, 1]], [[0, 1], [1, 0]], [[0, 0]], [[0, 0]]],
@@ -520,13 +656,14 @@ def run(ctx):
                       'axes': [2, 0, 1], 'cut': 1, 'matrix': None})
     cases += [gen_ml_case(rng) for _ in range(n_ml)]
     cases += [gen_ml_case(rng, stream='malformed') for _ in range(n_mal)]
+    cases += [gen_hist_case(rng) for _ in range(n_hist)]
     cases += [gen_reindex_case(rng) for _ in range(n_re)]
     cases += [gen_kvs_case(rng) for _ in range(n_kv)]
     cases += [gen_kronp_case(rng) for _ in range(n_kp)]
     cases += [gen_gen_case(rng) for _ in range(n_gen)]
     dist = {}
     for c in cases:
-        key = c['kind'] + (':L%d' % len(c['bs']) if c['kind'] == 'ml' else '') + (':' + c['rel'] if c['kind'] == 'kvs' else '')
+        key = c['kind'] + (':L%d' % len(c['bs']) if c['kind'] in ('ml', 'hist') else '') + (':' + c['rel'] if c['kind'] == 'kvs' else '')
         dist[key] = dist.get(key, 0) + 1
     log('[C15] %d cases: %s' % (len(cases), dist))
 
@@ -541,7 +678,7 @@ def run(ctx):
     # stage 3 (always): the property evaluated on the implementation
     nfail = 0
     for c, r in zip(cases, results):
-        nontriv = (c['kind'] != 'ml') or all(len(p) > 0 for p in c['bidx'])
+        nontriv = (c['kind'] not in ('ml', 'hist')) or all(len(p) > 0 for p in c['bidx'])
         ctx.count(json.dumps(c, sort_keys=True), nontrivial=nontriv)
         bad = property_failures(c, r)
         if bad:
@@ -566,7 +703,7 @@ def run(ctx):
         seen.add(name)
         ctx.broken.append('correspondence C15 model<->impl differs on %s' % name)
         bad = property_failures(c, r)
-        ctx.report('tie:%s:%s' % (name, c['kind'] + (':L%d' % len(c['bs']) if c['kind'] == 'ml' else '')),
+        ctx.report('tie:%s:%s' % (name, c['kind'] + (':L%d' % len(c['bs']) if c['kind'] in ('ml', 'hist') else '')),
                    'model and implementation disagree on %s' % name + (': ' + bad[0][1] if bad else
                    ' (the oracle finds no violation of the property on this input: a convention such as the order of the output changed)'),
                    {'case': c, 'impl': r, 'component': name}, found_input=bool(bad))
@@ -636,6 +773,7 @@ META = {
                   '(sparsity_ij_spec). Not theorems (tie + oracle only): reorder of levels, kron_partial values, get_transpose_idx_for_bidx. '
                   'The model (repaired behaviour for three defects, fixes/C15-*.patch) is tied to /repo on every run by exact comparison '
                   'of 13 observables per structure on ~650 random structures (thorough ~4400) of 1..6 levels plus reindexing tables, '
+                  '~250 (thorough 1500) histories on ONE MLMatrix object (queries, reassignment of .data in C/F layout or rebuild from a dense/sparse matrix, refused wrong-size assignment, queries again; every answer compared with the model at the current data, with the dense oracle and with a fresh object; theorem history_last_assignment), '
                   'knot-vector pairs (same/nested/unrelated meshes, degrees 0..4, repeated knots), partial Kronecker products and pattern '
                   'generators, evaluated by vm_compute; and the property is evaluated directly on the implementation with a plain-Python '
                   'dense Kronecker oracle, exhaustively over all 0/1 patterns of 2x2/2x3/3x2/3x3 blocks for one and two levels '
